@@ -461,7 +461,13 @@ def step(ctx, op, pool, a, b, plan, pe):
             elif what == "few_samples":
                 pe.Obs([x[:rr.randint(0, 4)]], ["A|r1"])
             elif what == "several_ensembles":
-                pe.Obs([x, x], ["A|r1", "B|r1"])
+                pair = rr.choice([["A|r1", "B|r1"], ["A", "A2"], ["A|r1", "A2|r1"], ["N200|r1", "N200b|r1"], ["ens|r1", "ens_b|r2"], ["B", "A"], ["A2", "A"],
+                                  ["A|r1", "A|r2", "Ab|r1"], ["x|1", "xy|1"]])
+                if rr.random() < 0.3 and len(pair) == 2:
+                    # the same request through merge_obs (which relies on the constructor's check)
+                    pe.merge_obs([pe.Obs([x], [pair[0]]), pe.Obs([x + 1.0], [pair[1]])])
+                else:
+                    pe.Obs([x + 0.1 * k for k in range(len(pair))], pair)
             elif what == "cov_name_sep":
                 pe.cov_Obs(1.0, 0.1, "cov|r1")
             elif what == "cov_asymmetric":
